@@ -19,6 +19,7 @@ RULE = ('generated documents of three schema families (varying depth / width; ID
         '(several parser read buffers); a case = (document, '
         'lazy depth, thin, api); distinct non-trivial = distinct (family, fault kind, api, thin) combinations with at '
         'least two root children (several chunks)')
+RULE += (' ' + 'Long documents (shop, flat) carry identity faults at their end (a part the streaming reader meets after many chunks); iterfind with a positional predicate is compared too (thin_lazy=True: listed finding).')
 ASSUMPTIONS = [
     'lazy errors deliberately carry no element: errors are compared on (reason) in order, not on .elem / .path',
     'lazy decode returns generators for the streamed parts: compared after full materialisation',
